@@ -91,11 +91,7 @@ def run(ctx):
     ctx.assumptions += ['see C01; rejection expectations of the structured stream come from the property text, '
                         'not from the model']
     regenerate(ctx)
-    proof_err = None
-    try:
-        ctx.prove(PROP, extra_targets=['theories/Core/Corr.vo', 'theories/Core/Cost.vo'])
-    except CoqFailure as e:
-        proof_err = e
+    proof_err = c01.prove_core(ctx, PROP)
     for e in ctx.known:
         if e['status'] == 'known' and e['id'] == 'F18':
             repro, shape, rec = oracle_f18(e['witness'])
